@@ -11,7 +11,7 @@ T2100 = 4102444800
 NAMED_RATES = [
     (1, 1), (100, 1), (200, 3), (44100, 1), (1000000, 1), (1000000, 3), (100000000, 7),
     (30000000, 1001), (4294967295, 1000003), (1, 10), (1000, 1), (48000, 1), (125, 2), (999983, 1000),
-    (10, 3), (1001, 7), (25000000, 1), (10000000, 1), (100000000, 1), (20000000, 1),
+    (10, 3), (1001, 7),
 ]
 CADENCES = [1, 2, 5, 10, 40, 100, 250, 400, 1000, 2000, 60000, 3600000]
 
@@ -20,9 +20,15 @@ def _spf(n, d, F):
     return rfmodel.ceil_div(F * n, 1000 * d)
 
 
+HIGH_RATES = [(25000000, 1), (10000000, 1), (100000000, 1), (20000000, 1)]
+
+
 @st.composite
-def rates(draw):
+def rates(draw, allow_high=False):
     if draw(st.integers(0, 9)) < 7:
+        if allow_high and draw(st.integers(0, 7)) == 0:
+            # start indices above 2^53 (not representable in a double); files are >= 10^4 samples even at 1 ms
+            return draw(st.sampled_from(HIGH_RATES))
         return draw(st.sampled_from(NAMED_RATES))
     n = draw(st.one_of(st.integers(1, 2000), st.integers(1, (1 << 32) - 1)))
     d = draw(st.one_of(st.integers(1, 50), st.integers(1, 10 ** 9)))
@@ -42,7 +48,7 @@ def rates(draw):
 
 @st.composite
 def rf_configs(draw, spf_cap=4096, boundary_p=0.6, force=None):
-    n, d = draw(rates())
+    n, d = draw(rates(allow_high=spf_cap >= 2048))
     # file cadence: at least one sample in *every* file  <=> F*n >= 1000*d ; cap samples per file
     cands = [F for F in CADENCES if F * n >= 1000 * d and _spf(n, d, F) <= spf_cap]
     if not cands:
@@ -78,6 +84,10 @@ def rf_configs(draw, spf_cap=4096, boundary_p=0.6, force=None):
     }
     if force:
         cfg.update(force)
+    if cfg["cplx"] and cfg["kind"] == "f" and cfg["form"] == "native" and cfg["order"] == ">":
+        # DigitalRFWriter derives the real type of a numpy complex dtype as native "f4"/"f8": a big-endian complex
+        # dtype is stored little-endian (values preserved).  Big-endian complex floats are generated in struct form.
+        cfg["form"] = "struct"
     # start index
     spf = _spf(n, d, F)
     u = draw(st.integers(0, 99))
